@@ -1366,6 +1366,16 @@ def check_path_scheme(ck):
     ls = FA(ck, FSDS + ".list_keys_nonversioned")
     strips = _suffix_strip_sites(ck, ls)
     ck.need(strips, "list_keys_nonversioned: no link-suffix strip site found")
+    # every walker turns link file names into key names (unless the listing does it for all of them afterwards)
+    in_listing = any(f_.fi is ls.fi for (f_, *_r) in strips)
+    for wname, wfi in _walkers(ck, ls).items():
+        if in_listing or any(f_.fi is wfi for (f_, *_r) in strips):
+            continue
+        if any(link in s_ for s_ in A.strings_in(wfi.node)):
+            raise AnalysisError("list_keys_nonversioned: %s mentions %r but no link-suffix strip site is recognised in it (unsupported idiom)" % (wname, link))
+        ck.ob(R, "%s::strips-link-suffix" % wfi.qual, False,
+              "%s hands out file names without removing the %r suffix of link files: a stored key `k` is listed as `k%s`, which no look-up finds" % (wname, link, link),
+              A.loc(wfi, wfi.node))
     for (f_, st, n, lit, cut, conds) in strips:
         fn = f_.fi
         ok = lit == link and cut == len(link)
@@ -1823,8 +1833,13 @@ def _suffix_strip_sites(ck, ls: FA):
             if isinstance(v, ast.Subscript) and isinstance(v.slice, ast.Slice) and v.slice.step is None \
                     and (v.slice.lower is None or (isinstance(v.slice.lower, ast.Constant) and v.slice.lower.value == 0)):
                 up = v.slice.upper
+                o = None
                 if isinstance(up, ast.UnaryOp) and isinstance(up.op, ast.USub):
                     o = up.operand
+                elif isinstance(up, ast.BinOp) and isinstance(up.op, ast.Sub) and isinstance(up.left, ast.Call) and isinstance(up.left.func, ast.Name) \
+                        and up.left.func.id == "len" and len(up.left.args) == 1 and A.norm(up.left.args[0]) == A.norm(v.value):
+                    o = up.right        # x[: len(x) - K]
+                if o is not None:
                     if isinstance(o, ast.Constant) and isinstance(o.value, int):
                         cut = o.value
                     elif isinstance(o, ast.Call) and isinstance(o.func, ast.Name) and o.func.id == "len" and len(o.args) == 1:
@@ -1864,8 +1879,18 @@ def _suffix_strip_sites(ck, ls: FA):
 def check_escape_inverse(ck, R):
     ls = FA(ck, FSDS + ".list_keys_nonversioned")
     ek = FA(ck, FSDS + "._escape_key")
-    rep = ek.one(ek.calls("replace"), "replace call")
-    esc = [A.const_str(a) for a in rep.args]
+    # what is replaced by what: `key.replace(OLD, NEW)` or `NEW.join(key.split(OLD))`, literals through temporaries
+    pairs = []
+    for c in ek.calls("replace"):
+        if len(c.args) == 2:
+            pairs.append([A.const_str(safe_expand(ek, a, c)) for a in c.args])
+    for c in ek.calls("join"):
+        inner = safe_expand(ek, c.args[0], c) if len(c.args) == 1 else None
+        if isinstance(inner, ast.Call) and A.call_attr(inner) == "split" and len(inner.args) == 1 and isinstance(c.func, ast.Attribute):
+            pairs.append([A.const_str(safe_expand(ek, inner.args[0], c)), A.const_str(safe_expand(ek, c.func.value, c))])
+    if len(pairs) != 1:
+        raise AnalysisError("%s: expected exactly one replace call, found %d" % (ek.qual, len(pairs)))
+    esc = pairs[0]
     from urllib.parse import unquote as _uq
     oke = len(esc) == 2 and esc[0] == ":" and esc[1] is not None and _uq(esc[1]) == ":"
     # the listing must apply the exact inverse: urllib.parse.unquote (directly or through a helper of
@@ -2059,6 +2084,16 @@ def _refuses_suffixed(ck, fa: FA, names, suffix, depth=2) -> bool:
         if isinstance(e, ast.Call) and A.call_attr(e) == "endswith" and isinstance(A.call_recv(e), ast.Name) and A.call_recv(e).id in names \
                 and suffix in A.strings_in(e):
             return True
+        if isinstance(e, ast.Compare) and len(e.ops) == 1 and isinstance(e.ops[0], ast.Eq):
+            # the same test as a slice comparison: key[-len(S):] == S / key[-N:] == S with N = len(S)
+            for (a, b) in ((e.left, e.comparators[0]), (e.comparators[0], e.left)):
+                if A.const_str(b) == suffix and isinstance(a, ast.Subscript) and isinstance(a.value, ast.Name) and a.value.id in names \
+                        and isinstance(a.slice, ast.Slice) and a.slice.upper is None and a.slice.step is None \
+                        and isinstance(a.slice.lower, ast.UnaryOp) and isinstance(a.slice.lower.op, ast.USub):
+                    o = a.slice.lower.operand
+                    if (isinstance(o, ast.Constant) and o.value == len(suffix)) or \
+                            (isinstance(o, ast.Call) and isinstance(o.func, ast.Name) and o.func.id == "len" and len(o.args) == 1 and A.const_str(o.args[0]) == suffix):
+                        return True
         if isinstance(e, ast.Compare) and len(e.ops) == 1 and isinstance(e.ops[0], (ast.Is, ast.IsNot)) and isinstance(e.left, ast.Name) and e.left.id in names \
                 and A.is_none(e.comparators[0]):
             return isinstance(e.ops[0], ast.IsNot)   # a key that ends in the suffix is a string
